@@ -249,7 +249,9 @@ def cmdResolve (family mode zones cache script question expect impl : String) : 
             let matching (se : ScriptEntry) : Bool := match se.reply with
               | some m => m.header.id == 0 && m.header.isResponse && m.header.opcode == 0 && !m.header.isTruncated
                   && (m.header.rcode == 0 || m.header.rcode == 3)
-                  && m.questions == [{ name := se.qname, qtype := se.qtype, qclass := 1 }]
+                  && (match m.questions with
+                      | [mq] => mq.name == se.qname && mq.qtype == se.qtype
+                      | _ => false)
               | none => false
             let sourcesOk : List RR :=
               (allZones.zones.flatMap (fun kv => zoneAllRRs kv.2 ++ (kv.2.allWildcardRecords.flatMap (fun (n, zrs) => zrs.map (·.toRR n)))))
@@ -261,6 +263,10 @@ def cmdResolve (family mode zones cache script question expect impl : String) : 
                then ["fail:C06:record-from-a-discarded-reply"] else [])
               ++ (if io.logFull.any (fun e => e.1 == "4:3405803842")
                   then ["fail:C06:followed-a-referral-not-deeper-than-the-delegation-in-use"] else [])
+            -- one attempt per transport in one exchange: a TCP attempt is never followed at once by the same
+            -- TCP attempt (a new exchange with the same server starts with UDP again: these requests fit)
+            let twice := (io.logFull.zip (io.logFull.drop 1)).any (fun (a, b) => a == b && a.2.1)
+            let c08b : List String := if twice then ["fail:C08:transport-tried-twice-in-one-exchange"] else []
             let c05 : List String :=
               if advanceS > 0 && okRes && !io.rrs.all (fun rr => liveSources.any (fun k => k.rtype == rr.rtype && k.fields == rr.fields))
               then ["fail:C05:expired-cached-record-used-by-the-resolver"] else []
@@ -412,7 +418,7 @@ def cmdResolve (family mode zones cache script question expect impl : String) : 
                       else if !soaOk then ["fail:C07:soa"]
                       else []
                   | _ => ["fail:C07:bad-expect"]
-            c08 ++ c05 ++ c06 ++ c18 ++ c18p ++ c10 ++ c01 ++ c01d ++ c07
+            c08 ++ c08b ++ c05 ++ c06 ++ c18 ++ c18p ++ c10 ++ c01 ++ c01d ++ c07
       let oracle := if verdicts.isEmpty then "ok" else ",".intercalate verdicts
       -- with several nameservers per zone the referral host order comes out of a HashSet:
       -- the model is not authoritative there, only the specification oracles judge the case
